@@ -62,6 +62,8 @@ def main(replay=None):
             cases.append(D.Case("alias", 6, g.alias_history()))
         for _ in range(n_cycle):
             cases.append(D.Case("cycle", 4, g.cycle_history()))
+        for _ in range(2000 if thorough else 250):
+            cases.append(D.Case("shared-rows", 6, g.shared_rows_history()))
 
     res = D.run_cases(run, cases, drv, himpl, "000000")
     known_flags = "".join("1" if run.known.has(PID, k) else "0" for k in SWITCHES)
